@@ -150,8 +150,10 @@ func normalizeRetryAfter(
 	switch retryAfterType {
 
 	case sharedConfig.RetryAfterAbsoluteEpoch:
-		now := clock.Now().Unix()
-		return retryAfterNum - float64(now), nil
+		// sub-second precision: with whole seconds the entry would be served for up to one
+		// second after the provider's retry-after instant has passed
+		now := float64(clock.Now().UnixNano()) / float64(time.Second)
+		return retryAfterNum - now, nil
 
 	case sharedConfig.RetryAfterRelativeSeconds:
 		return retryAfterNum, nil
